@@ -403,6 +403,14 @@ func c17FieldJSON(k *types.Kustomization, f c17Field) string {
 	return string(b)
 }
 
+func c17MustField(n string) c17Field {
+	f, ok := c17FieldByName(n)
+	if !ok {
+		panic("unknown field " + n)
+	}
+	return f
+}
+
 func c17FieldByName(n string) (c17Field, bool) {
 	for _, f := range c17Fields {
 		if f.goName == n {
@@ -885,6 +893,20 @@ func c17InverseOf(o c17Op, k *types.Kustomization, c *c17Case) (c17Op, bool) {
 		}
 		return c17Op{Kind: "remove secret", Pos: o.Pos, Namespace: o.Namespace}, true
 	case "add patch":
+		// guard of C17_add_remove_inverse_patch: no existing patch equals the new one once an explicit
+		// empty `options: {}` has been dropped by a write (`remove patch` deletes every equal patch)
+		for _, q := range k.Patches {
+			if len(q.Options) != 0 || q.Path != o.Path || q.Patch != o.Patch {
+				continue
+			}
+			var t [7]string
+			if q.Target != nil {
+				t = [7]string{q.Target.Group, q.Target.Version, q.Target.Kind, q.Target.Name, q.Target.Namespace, q.Target.AnnotationSelector, q.Target.LabelSelector}
+			}
+			if t == o.Target && !(q.Target != nil && *q.Target == (types.Selector{})) {
+				return c17Op{}, false
+			}
+		}
 		return c17Op{Kind: "remove patch", Path: o.Path, Patch: o.Patch, Target: o.Target}, true
 	}
 	return c17Op{}, false
@@ -946,6 +968,27 @@ func c17Laws(r *Run, c *c17Case, obs []c17StepObs) {
 					cls = "comment-line-absorbed-into-block-scalar"
 				}
 				viol("frame", cls, fmt.Sprintf("step %d %v changed field %s: %s -> %s", i, o.cli(), f.goName, jo, jn))
+			}
+		}
+		// an add of path-like items never introduces a duplicate entry (the lists behave like sets:
+		// every add command tests membership before appending) — independent of the model
+		if list := map[string]string{"add resource": "Resources", "add base": "Resources", "add component": "Components",
+			"add transformer": "Transformers", "add generator": "Generators"}[o.Kind]; list != "" {
+			dups := func(k *types.Kustomization) int {
+				f, _ := c17FieldByName(list)
+				v := reflect.ValueOf(k).Elem().FieldByIndex(f.index)
+				seen, n := map[string]bool{}, 0
+				for j := 0; j < v.Len(); j++ {
+					x := v.Index(j).String()
+					if seen[x] {
+						n++
+					}
+					seen[x] = true
+				}
+				return n
+			}
+			if dups(kNew) > dups(kPrev) {
+				viol("add_no_duplicate", "add-introduces-duplicate:"+o.Kind, fmt.Sprintf("step %d %v: %s -> %s", i, o.cli(), c17FieldJSON(kPrev, c17MustField(list)), c17FieldJSON(kNew, c17MustField(list))))
 			}
 		}
 		// comments
@@ -1256,7 +1299,7 @@ func c17GenKust(g *Rng, present []string, adversarial bool) *types.Kustomization
 	if g.Chance(25) {
 		k.SecretGenerator = append(k.SecretGenerator, types.SecretArgs{GeneratorArgs: c17GenGenArgs(g, present), Type: g.Pick([]string{"", "Opaque", "kubernetes.io/tls"})})
 	}
-	if g.Chance(15) {
+	if g.Chance(35) {
 		k.GeneratorOptions = &types.GeneratorOptions{DisableNameSuffixHash: g.Chance(50), Immutable: g.Chance(20)}
 		if g.Chance(60) {
 			k.GeneratorOptions.Labels = c17GenSmap(g, 0, 2)
@@ -1542,6 +1585,13 @@ func genOp17(g *Rng, k *types.Kustomization, present []string, adversarial bool)
 		}
 		n -= x.w
 	}
+	// MergeGlobalOptionsIntoLocal copies the top-level generatorOptions into the addressed entry: make the
+	// combination "top-level generatorOptions + an entry that gets / has options of its own" frequent
+	aimGen := false
+	if k.GeneratorOptions != nil && g.Chance(45) {
+		kind = g.Pick([]string{"add secret", "add configmap", "add secret"})
+		aimGen = true
+	}
 	o := c17Op{Kind: kind}
 	pathArg := func(existing []string) string {
 		switch n := g.Intn(100); {
@@ -1562,12 +1612,19 @@ func genOp17(g *Rng, k *types.Kustomization, present []string, adversarial bool)
 		if g.Chance(25) {
 			o.Pos = append(o.Pos, pathArg(nil))
 		}
+		if g.Chance(20) {
+			// the same item twice in ONE invocation: literally, or through a glob that catches it
+			o.Pos = append(o.Pos, g.Pick([]string{o.Pos[0], o.Pos[0], "*.yaml", "*", "sub/*"}))
+		}
 		o.NoVerify = g.Chance(20)
 		if g.Chance(3) {
 			o.Pos = nil
 		}
 	case "add component":
 		o.Pos = []string{g.Pick([]string{"sub", "base", "comp", "a.yaml", "sub/*"})}
+		if g.Chance(20) {
+			o.Pos = append(o.Pos, g.Pick([]string{o.Pos[0], "sub/*", "*"}))
+		}
 	case "add base":
 		o.Pos = []string{g.Pick([]string{"base", "sub", "base,sub", "nodir", "a.yaml", "sub,sub"})}
 		if g.Chance(5) {
@@ -1577,6 +1634,9 @@ func genOp17(g *Rng, k *types.Kustomization, present []string, adversarial bool)
 		o.Pos = []string{g.Pick([]string{"t1.yaml", "t2.yaml", "t?.yaml", "tr.yaml", "*.yaml", "sub/*"})}
 		if g.Chance(20) {
 			o.Pos = append(o.Pos, g.Pick([]string{"t1.yaml", "t2.yaml"}))
+		}
+		if g.Chance(20) {
+			o.Pos = append(o.Pos, g.Pick([]string{o.Pos[0], "t?.yaml", "*.yaml"}))
 		}
 	case "remove resource":
 		o.Pos = []string{pathArg(k.Resources)}
@@ -1659,7 +1719,30 @@ func genOp17(g *Rng, k *types.Kustomization, present []string, adversarial bool)
 			}
 		}
 		o.Pos = []string{c17ExistingOr(g, names, c17GenNames)}
+		if aimGen {
+			// prefer an existing entry that already has an `options:` block
+			var withOpts []string
+			if kind == "add configmap" {
+				for _, x := range k.ConfigMapGenerator {
+					if x.Options != nil {
+						withOpts = append(withOpts, x.Name)
+					}
+				}
+			} else {
+				for _, x := range k.SecretGenerator {
+					if x.Options != nil {
+						withOpts = append(withOpts, x.Name)
+					}
+				}
+			}
+			if len(withOpts) > 0 && g.Chance(60) {
+				o.Pos = []string{g.Pick(withOpts)}
+			}
+		}
 		switch n := g.Intn(100); {
+		case aimGen:
+			// a literal with a fresh key keeps the command valid most of the time
+			o.Literals = []string{g.Pick([]string{"q1", "q2", "q3", "q4"}) + "=" + g.Pick([]string{"1", "v"})}
 		case n < 55:
 			for _, key := range c17PickDistinct(g, []string{"x", "y", "z", "A", "k1"}, 1, 2) {
 				o.Literals = append(o.Literals, key+"="+g.Pick([]string{"1", "v", "a=b", "'q'"}))
@@ -1679,7 +1762,7 @@ func genOp17(g *Rng, k *types.Kustomization, present []string, adversarial bool)
 		if g.Chance(6) {
 			o.Literals = append(o.Literals, g.Pick([]string{"novalue", "=v"}))
 		}
-		o.DisableHash = g.Chance(15)
+		o.DisableHash = g.Chance(15) || (aimGen && g.Chance(50))
 		if kind == "add configmap" && g.Chance(20) {
 			o.Behavior = g.Pick([]string{"create", "merge", "replace", "bogus"})
 		}
@@ -1919,4 +2002,13 @@ func replayC17(p string) (bool, string, error) {
 		fmt.Fprintf(&b, "LAW VIOLATED law=%s class=%s: %s\n", v.Law, v.Class, v.Detail)
 	}
 	return violated, b.String(), nil
+}
+
+func c17SortedNames(m map[string]bool) []string {
+	out := make([]string, 0, len(m))
+	for k := range m {
+		out = append(out, k)
+	}
+	sort.Strings(out)
+	return out
 }
